@@ -308,8 +308,55 @@ def check_collocation(ctx, orders):
                               {"sub": "collocation", "order": n, "monomial": wm, "rule": which}, "error %.3e" % worst)
 
 
+def check_rule_histories(ctx, quick):
+    """E2 over request histories: a rule lookup is a pure function of (order, adjacency) - the arrays returned for n after any earlier
+    request m (and after m, m') must be bitwise those returned for n at its first request in this process (module-level workspaces
+    and caches must not leak between orders).  Runs first, so the first sweep really is the first use."""
+    import itertools
+
+    from bempp_cl.api.integration import duffy_collocation as DC
+    from bempp_cl.api.integration import duffy_galerkin as D
+    from bempp_cl.api.integration import gauss, triangle_gauss
+
+    families = {
+        "triangle": (lambda n: triangle_gauss.rule(n), [1, 4, 10, 11, 20] if quick else list(range(1, 21))),
+        "gauss": (lambda n: gauss.rule(n), [1, 5, 12, 30] if quick else list(range(1, 31))),
+        "duffy-coincident": (lambda n: D.rule(n, "coincident"), [2, 3, 5, 6] if quick else list(range(1, 9))),
+        "duffy-edge": (lambda n: D.rule(n, "edge_adjacent"), [2, 3, 5, 6] if quick else list(range(1, 9))),
+        "duffy-vertex": (lambda n: D.rule(n, "vertex_adjacent"), [2, 3, 5, 6] if quick else list(range(1, 9))),
+        "collocation": (lambda n: DC.duffy_rule_on_reference_triangle(n), [1, 3, 6] if quick else list(range(1, 9))),
+    }
+
+    def snap(res):
+        return tuple(np.array(a, dtype=np.float64).tobytes() for a in res)
+
+    for fam, (f, orders) in families.items():
+        first = {n: snap(f(n)) for n in orders}  # ascending first use
+        depth = 2 if quick else 3
+        for hist in itertools.chain.from_iterable(itertools.product(orders, repeat=k) for k in range(1, depth + 1)):
+            for m in hist[:-1]:
+                f(m)
+            got = snap(f(hist[-1]))
+            ctx.transitions += len(hist)
+            ctx.case(("rule-history", fam, hist), sub="rule-history", sample={"family": fam, "requests": list(hist)} if len(ctx.samples) < 2 and len(hist) == 2 else None)
+            if got != first[hist[-1]]:
+                ctx.violation("rule-history/%s" % fam, {"sub": "rule-history", "family": fam, "requests": list(hist)},
+                              "rule for order %d requested after %s differs from the rule returned at its first request" % (hist[-1], list(hist[:-1])))
+        # interleaving with the other families (shared Gauss tables)
+        for other, (g, oorders) in families.items():
+            if other == fam:
+                continue
+            g(oorders[-1])
+            n = orders[0]
+            if snap(f(n)) != first[n]:
+                ctx.violation("rule-history/%s" % fam, {"sub": "rule-history", "family": fam, "requests": [other, n]},
+                              "rule for order %d differs after a request to %s" % (n, other))
+            ctx.transitions += 2
+
+
 def run(ctx):
     quick = ctx.tier == "quick"
+    check_rule_histories(ctx, quick)
     check_triangle(ctx, range(1, 21))
     check_gauss(ctx, range(1, 31))
     check_duffy_exactness(ctx, orders_full=range(2, 7 if quick else 11), orders_low=range(1, 13 if quick else 31))
@@ -334,6 +381,9 @@ def run(ctx):
 
 
 def replay(ctx, case):
+    if case.get("sub") == "rule-history":
+        check_rule_histories(ctx, False)
+        return
     sub = case.get("sub")
     if sub == "triangle":
         check_triangle(ctx, [case["order"]])
